@@ -73,4 +73,9 @@ def WFRing (d : Desc) : Prop :=
 
 instance (d : Desc) : Decidable (WFRing d) := by unfold WFRing; exact inferInstance
 
+/-- tokens are `uint32` values (§1.4: tokens are `Nat` with an explicit range predicate) -/
+def TokensU32 (d : Desc) : Prop := ∀ i ∈ d, ∀ t ∈ i.tokens, t ≤ maxToken
+
+instance (d : Desc) : Decidable (TokensU32 d) := by unfold TokensU32; exact inferInstance
+
 end C01
